@@ -577,6 +577,10 @@ def _e2e_has_joined(t):
     return any(_e2e_has_joined(k) for k in kids)
 
 
+def _e2e_has_seq(t):
+    return t["t"] in ("list", "array") or any(_e2e_has_seq(k) for k in t.get("fields", []))
+
+
 def _e2e_schema(t, kinds):
     """the tree description as a schema of the flat model (Flatland/Flat.lean), the same way schema_of builds the real one;
     kinds: list of real scalar classes, a leaf's k is its index"""
@@ -1178,6 +1182,13 @@ class C12(Property):
         elif via_flat.flatten() == flat and e2e["rebuilt"] != flatlib.extract(root, m["schema"]):
             out.append({"clause": "posted-from-flat-rebuilds", "expected": flatlib.extract(root, m["schema"]),
                         "observed": e2e["rebuilt"], "posted": [list(p) for p in posted], "detail": "nothing prunable"})
+        elif not _e2e_has_seq(case["tree"]) and cls.from_flat(posted).flatten() != flat:
+            # decided from the tree description, not from what the library makes of it: without List / Array /
+            # MultiValue there is nothing the documentation allows to be pruned -- the flat output comes back as it is
+            # (an unchecked box comes back as the pair (key, '') it was)
+            out.append({"clause": "posted-from-flat-rebuilds", "expected": [list(p) for p in flat],
+                        "observed": [list(p) for p in cls.from_flat(posted).flatten()], "posted": [list(p) for p in posted],
+                        "detail": "no sequence in the tree: original.flatten()"})
         return out
 
     def classify(self, case, failure):
@@ -1469,5 +1480,18 @@ class C12(Property):
             c["markup"] = "xhtml"
             yield c
 
+
+# END TO END (h14): C12 o C02 o C01, see NOTES-h14.md
+C12.level_note += (
+    "  END TO END (Proofs/EndToEnd.lean): end_to_end_partial / _total / _generator -- for a form tree t that renders the state e of "
+    "schema s (embed t = resolve s e) under the decidable hypotheses Flatland.EndToEnd.hyps (formOk, oneSubmitter, boolsCanonical; "
+    "wfS, rootOK, okSB, envOKB, namesSafe; hnodupB = C02's hereditary no-key-twice on the element's own pairs; dropSafe when a box "
+    "is unchecked), from_flat of what the browser posts is prS e (C01's documented pruning); EndToEnd_Full is refuted "
+    "(end_to_end_full_fails: unchecked Boolean in a SparseDict).  Tie: the real posted pairs go through the real from_flat and the "
+    "rebuilt tree is compared with the model's fromFlat of the model's posted pairs; the hypotheses are evaluated on both sides "
+    "and compared; where they hold the runner checks rebuilt = prS e (spec_agrees).  Oracle clause posted-from-flat-rebuilds.  "
+    "Arrays / MultiValues with two or more members (no order-free composition) and JoinedStrings: oracle only.")
+C12.rule += ("  Form-mode cases without a JoinedString also carry the END TO END observation (tag e2e-theorem-applies: "
+             "about 69 % of form-mode cases meet every hypothesis of end_to_end_partial).")
 
 PROP = C12()
